@@ -141,6 +141,22 @@ def build(structure):
                     r['resseq'] = n
                     r['icode'] = ' '
                     n += 1
+        elif kind == 'renumber_restart':
+            # residue numbers restart (lower) in the middle of a chain: a valid file whose residues are not in sorted order
+            _, idx, at, first2 = op
+            if idx < len(chains) and len(chains[idx]['residues']) > 1:
+                at = 1 + at % (len(chains[idx]['residues']) - 1)
+                hi = max(r['resseq'] for r in chains[idx]['residues'][:at])
+                lo = min(r['resseq'] for r in chains[idx]['residues'][:at])
+                n = first2 if first2 + (len(chains[idx]['residues']) - at) < lo else hi + 50
+                if first2 + (len(chains[idx]['residues']) - at) >= lo:
+                    n = max(1, lo - (len(chains[idx]['residues']) - at) - 3)
+                    if n + (len(chains[idx]['residues']) - at) >= lo:
+                        continue
+                for r in chains[idx]['residues'][at:]:
+                    r['resseq'] = n
+                    r['icode'] = ' '
+                    n += 1
         elif kind == 'icode':
             _, idx, k = op
             if idx < len(chains) and len(chains[idx]['residues']) > 1:
